@@ -2,6 +2,7 @@ package main
 
 import (
 	"fmt"
+	"strings"
 	"time"
 
 	fpgo "github.com/TeaEntityLab/fpGo/v2"
@@ -318,7 +319,7 @@ func poolClose(cfg scenlib.PoolCfg, jobs int, kind string, when string, bound in
 			if len(r.Panics) > 0 || r.Cap != "" {
 				return fs
 			}
-			if n := e1.Count(r, "panic-handler"); n > 0 {
+			if n := e1.Count(r, "panic-handler"); n > 0 && !strings.Contains(kind, "panic") {
 				fs = append(fs, e1.Fail("C15|"+fam+"|panic-handler-invoked", "the pool's panic handler was invoked %d time(s) although no job panics: %v", n, r.Events[e1.Index(r, "panic-handler")].Args))
 			}
 			if e1.Count(r, "pool-closed", true) != 1 {
@@ -389,6 +390,10 @@ func scenarios(tier string) []*vsched.Scenario {
 	for _, c := range pc {
 		for _, when := range []string{"now", "scheduled", "started", "idle"} {
 			out = append(out, poolClose(c, 1, "plain", when, 1, false, false), poolClose(c, 2, "slow", when, 2, true, false), poolClose(c, 1, "plain", when, 1, false, true))
+			if when == "started" || when == "scheduled" {
+				// the job in flight while Close happens ends with its own panic afterwards (5 virtual ms later)
+				out = append(out, poolClose(c, 1, "timed-panic", when, 1, false, false), poolClose(c, 2, "timed-panic", when, 1, false, true))
+			}
 			if tier == "thorough" {
 				out = append(out, poolClose(c, 2, "plain", when, 2, false, false), poolClose(c, 3, "slow", when, 3, true, false), poolClose(c, 2, "slow", when, 2, true, true))
 			}
